@@ -6,8 +6,8 @@ mkdir -p "$out"
 ( cd "$wt" && cmake -G Ninja -S . -B _b -DCMAKE_BUILD_TYPE=RelWithDebInfo -DCMAKE_CXX_FLAGS=-Wno-error -DGTest_DIR=/root/miniconda/lib/cmake/GTest >/dev/null 2>&1 \
   && cmake --build _b -j4 >_b.build.log 2>&1 && ctest --test-dir _b -j8 --timeout 900 2>&1 | tail -4 ) > "$out/suite.log" 2>&1
 suite=$(grep -c "100% tests passed" "$out/suite.log")
-g++ -std=c++17 -DAMC_NONSTD_FEATURES -I/repo/include "$demo" -o "$out/demo_orig" 2>"$out/demo_orig.build.log" && ( "$out/demo_orig" >"$out/demo_orig.log" 2>&1; echo $? > "$out/demo_orig.rc" )
-g++ -std=c++17 -DAMC_NONSTD_FEATURES -I"$wt/include" "$demo" -o "$out/demo_mut" 2>"$out/demo_mut.build.log" && ( "$out/demo_mut" >"$out/demo_mut.log" 2>&1; echo $? > "$out/demo_mut.rc" )
+g++ ${CONFIRM_FLAGS:--std=c++17} -DAMC_NONSTD_FEATURES -I/repo/include "$demo" -o "$out/demo_orig" 2>"$out/demo_orig.build.log" && ( "$out/demo_orig" >"$out/demo_orig.log" 2>&1; echo $? > "$out/demo_orig.rc" )
+g++ ${CONFIRM_FLAGS:--std=c++17} -DAMC_NONSTD_FEATURES -I"$wt/include" "$demo" -o "$out/demo_mut" 2>"$out/demo_mut.build.log" && ( "$out/demo_mut" >"$out/demo_mut.log" 2>&1; echo $? > "$out/demo_mut.rc" )
 echo "{\"id\":\"$id\",\"suite_passes_with_change\":$suite,\"demo_rc_original\":$(cat $out/demo_orig.rc 2>/dev/null || echo -1),\"demo_rc_with_change\":$(cat $out/demo_mut.rc 2>/dev/null || echo -1)}" > "$out/confirm.json"
 rm -rf "$wt/_b" "$out/demo_orig" "$out/demo_mut"
 cat "$out/confirm.json"
